@@ -362,7 +362,7 @@ package psatoken
 //@   ensures[flag] scs == nil ==> ret == nil && c.SwComponents == nil && c.NoSwMeasurements != nil && *c.NoSwMeasurements == 1 && fresh(c.NoSwMeasurements)
 //@   ensures[iff] scs != nil ==> ((ret == nil) == inputCompsValid(scs))
 //@   ensures[set] scs != nil && ret == nil ==> c.NoSwMeasurements == nil && wfComps(c.SwComponents) && c.SwComponents != nil && sameComps(compsOf(c.SwComponents), scs)
-//@   ensures[unchanged] scs != nil && ret != nil ==> c.NoSwMeasurements == old(c.NoSwMeasurements) && (old(c.SwComponents) == nil ==> wfComps(c.SwComponents) && specNoComps(c.SwComponents)) && (old(c.SwComponents) != nil ==> c.SwComponents == old(c.SwComponents) && compsOf(c.SwComponents) == old(compsOf(c.SwComponents)))
+//@   ensures[unchanged] scs != nil && ret != nil ==> c.NoSwMeasurements == old(c.NoSwMeasurements) && c.SwComponents == old(c.SwComponents) && (c.SwComponents != nil ==> compsOf(c.SwComponents) == old(compsOf(c.SwComponents)))
 //@   ensures[class] ret != nil ==> errOnly(ret, ErrMissingMandatory) || errOnly(ret, ErrWrongSyntax)
 //@   modifies c.SwComponents, c.NoSwMeasurements, c.SwComponents.(*SwComponents[*SwComponent]).values
 
